@@ -21,6 +21,7 @@ CONSTANTS
   WithRejects = {rej}
   ExportOneIn = {one_in}
   RecoveryCrashes = {rcrash}
+  Batch = {batch}
 INVARIANTS NoViolation CacheCounterExact ChunksAbut DurableIsPrefix Export {extra_inv}
 VIEW View
 ALIAS Alias
@@ -28,21 +29,21 @@ CHECK_DEADLOCK FALSE
 """
 D = dict(votes="C_Votes", appids="C_AppIds", payloads="C_Payloads", trunc="C_TruncIdx", purge="C_PurgeIds",
          commit="C_CommitIds", users="C_Users", cfgs="C_Cfgs", calls=3, flush=1, reopen=0, crash=0, faults=0,
-         conc="FALSE", rej="FALSE", one_in=1, extra_inv="", rcrash="FALSE")
+         conc="FALSE", rej="FALSE", one_in=1, extra_inv="", rcrash="FALSE", batch="FALSE")
 T = {
     # sequential instances (module MC_Seq)
-    "MC_C01_q": dict(calls=3, flush=1),
-    "MC_C01_t": dict(calls=4, flush=1, cfgs="C_CfgsWide"),
+    "MC_C01_q": dict(calls=3, flush=1, batch="TRUE"),
+    "MC_C01_t": dict(calls=4, flush=1, cfgs="C_CfgsWide", batch="TRUE", one_in=50),
     "MC_C02_q": dict(calls=2, flush=2, reopen=2),
     "MC_C02_t": dict(calls=3, flush=2, reopen=2),
-    "MC_C06_q": dict(calls=2, flush=1, reopen=1, rej="TRUE"),
-    "MC_C06_t": dict(calls=3, flush=1, reopen=1, rej="TRUE"),
+    "MC_C06_q": dict(calls=2, flush=1, reopen=1, rej="TRUE", batch="TRUE"),
+    "MC_C06_t": dict(calls=3, flush=1, reopen=1, rej="TRUE", batch="TRUE"),
     "MC_C10_q": dict(calls=3, flush=1, one_in=10, extra_inv="TailExact"),
     "MC_C10_t": dict(calls=4, flush=1, one_in=100, cfgs="C_CfgsWide", extra_inv="TailExact"),
     "MC_C09_q": dict(calls=3, flush=1, one_in=10, extra_inv="CorruptionReported MissingChunkReported"),
     "MC_C09_t": dict(calls=4, flush=1, one_in=100, cfgs="C_CfgsWide", extra_inv="CorruptionReported MissingChunkReported"),
-    "MC_C11_q": dict(calls=3, flush=1, cfgs="C_CfgsWide"),
-    "MC_C11_t": dict(calls=4, flush=2, cfgs="C_CfgsWide"),
+    "MC_C11_q": dict(calls=3, flush=1, cfgs="C_CfgsWide", batch="TRUE", one_in=4),
+    "MC_C11_t": dict(calls=4, flush=2, cfgs="C_CfgsWide", batch="TRUE", one_in=100),
 }
 T.update({
     # concurrent instances (module MC_Conc)
@@ -54,6 +55,8 @@ T.update({
     "MC_RCrash_q": dict(calls=1, flush=1, crash=1, conc="TRUE", cfgs="C_CfgsCrash", one_in=4, rcrash="TRUE"),
     "MC_RCrash_t": dict(calls=2, flush=1, crash=1, conc="TRUE", cfgs="C_CfgsCrash", one_in=40, rcrash="TRUE"),
     "MC_Crash_t": dict(calls=3, flush=1, crash=1, conc="TRUE", cfgs="C_CfgsCrash", one_in=200),
+    "MC_C07crash_q": dict(calls=2, flush=1, crash=1, conc="TRUE", cfgs="C_CfgsCrashCache", one_in=4),
+    "MC_C07crash_t": dict(calls=3, flush=1, crash=1, conc="TRUE", cfgs="C_CfgsCrashCache", one_in=40),
     "MC_C14_q": dict(calls=3, flush=1, reopen=1, conc="TRUE", cfgs="C_CfgsRot"),
     "MC_C14_t": dict(calls=3, flush=2, reopen=2, conc="TRUE", cfgs="C_CfgsRot"),
     "MC_C08_q": dict(calls=3, flush=1, faults=0, conc="TRUE", cfgs="C_CfgsRot"),
